@@ -353,6 +353,17 @@ class Check:
             from .replay import run_replay
 
             seen = set()
+            # oracles that are also attached to a recorded known finding are expected to reproduce it: they are exempt
+            for _, ko in known_hits:
+                krp = ko.get("replay")
+                if callable(krp):
+                    try:
+                        krp = krp(ko.get("witness"))
+                    except Exception:
+                        krp = None
+                if isinstance(krp, dict) and krp.get("script"):
+                    seen.add(hash(krp.get("script")))
+            exempt = len(seen)
             for o in self.obls:
                 rp = o.get("replay")
                 if o["verdict"] != "discharged" or not rp:
@@ -363,7 +374,7 @@ class Check:
                     except Exception:
                         continue
                 key = hash(rp.get("script"))
-                if key in seen or len(seen) >= int(os.environ.get("PYVC_REPLAY_SANITY_MAX", "24")):
+                if key in seen or len(seen) - exempt >= int(os.environ.get("PYVC_REPLAY_SANITY_MAX", "24")):
                     continue
                 seen.add(key)
                 try:
@@ -374,7 +385,7 @@ class Check:
                     errors.append(dict(name=o["name"], detail=f"replay oracle disagrees with a discharged obligation: {detail}"))
                 elif ok is None:
                     errors.append(dict(name=o["name"], detail=f"replay oracle could not run: {detail}"))
-            self.extra["replay_oracles_validated"] = len(seen)
+            self.extra["replay_oracles_validated"] = len(seen) - exempt
         if errors and exit_code == 0:
             exit_code = 3
             for o in errors[:10]:
